@@ -4,6 +4,7 @@
 From Coq Require Import List Arith ZArith Bool.
 Import ListNotations.
 From KV Require Import Model.Greedy Model.Neox Proofs.GreedyP Proofs.NeoxP.
+From KV Require Proofs.NeoxFunP.
 
 Theorem coord_bij : forall D M, 0 < D -> 0 < M ->
   (forall r, rank_of D M (c_pipe D M r) (c_data D M r) (c_model M r) = r /\
@@ -34,6 +35,14 @@ Theorem stage_agrees : forall peers names work a, neox_ok_b peers names work a =
   forall i fs, nth_error work i = Some fs -> fs <> [] ->
     exists w, In w peers /\ forall f c, In (f, c) fs -> lookup2 a i f = Some w.
 Proof. exact neox_stage_l. Qed.
+
+(* the deterministic stage greedy (first least-loaded peer - what the correspondence compares the code with) IS
+   accepted by the checker for every duplicate-free non-empty peer list and all layers with distinct factor names,
+   so stage_agrees and stage_balance hold for it on every input *)
+Theorem neox_greedy_in_relation : forall peers names work,
+  NoDup peers -> peers <> [] -> (forall fs, In fs work -> fs <> [] /\ NoDup (map fst fs)) ->
+  neox_ok_b peers names work (neox_greedy peers names work) = true.
+Proof. exact NeoxFunP.neox_accepts_l. Qed.
 
 Theorem stage_balance : forall peers names work a Mx L', NoDup peers ->
   (forall fs, In fs work -> item_bound true fs Mx) -> (0 <= Mx)%Z ->
@@ -85,6 +94,7 @@ Example neox_2x2x2 :
     = [(1, [(0, 4); (1, 4)]); (0, [(0, 5); (1, 5)]); (2, [(0, 6)])].
 Proof. repeat split; reflexivity. Qed.
 
+Print Assumptions neox_greedy_in_relation.
 Print Assumptions coord_bij.
 Print Assumptions groups_by_coordinates.
 Print Assumptions stage_agrees.
